@@ -39,6 +39,7 @@ def run_config(ctx, rep, cfg, F):
                    walkers={k: v for k, v in c03.WALKERS.items() if "Mut" in k},
                    ctors={k: v for k, v in c03.CTORS.items() if "mut" in k.lower()}, extras=False, floor=20)
     c02.run_config(ctx, r2, cfg, F, funcs={"PrefixMap::get_lpm_mut": c02.LPM["PrefixMap::get_lpm_mut"]}, floor=100)
+    c11.run_config(ctx, r2, cfg, F, only_acc={k: v for k, v in c11.ACC.items() if k.endswith("_mut")})
     # get_mut through the observer rule of C01
     short = "PrefixMap::get_mut"
     if short in F.short:
